@@ -347,7 +347,10 @@ def model_case(draw, tier):
             "strategy": draw(st.sampled_from(("Constant", "Adaptive", "TrustRegion"))),
             "damping": 10.0 ** draw(st.integers(-9, 3)), "min": draw(st.sampled_from((1e-6, 1e-6, 1e-3, 0.5))),
             "max": draw(st.sampled_from((1e32, 1e32, 1e2, 5.0))), "vectorize": draw(st.booleans()), "reject": draw(st.sampled_from((0, 2, 16))),
-            "weight_at_step": draw(st.booleans())}
+            "weight_at_step": draw(st.booleans()),
+            # an optimizer object with a past: an EARLIER step() on the same object, with another per-call weight ("weight") or without
+            # arguments ("plain"); the judged step is the one after it.  The statement is about every step, not the first of an object.
+            "prestep": draw(st.sampled_from((None, None, None, None, None, "weight", "plain")))}
     return case
 
 
@@ -411,6 +414,40 @@ def check_model(case, rec, tol=1e-6):
     frozen = any(i["frozen"] for i in case["inputs"])
     rec.label(glt, case["opt"], "solver:" + case["solver"], "kernel:%s" % case["kernel"], "corr:" + case["corrector"],
               "frozen" if frozen else "allfree", "vec" if case["vectorize"] else "novec")
+    prebuilt = None
+    if case.get("prestep"):
+        # the optimizer's past: one earlier step on the same object (result not judged), then everything below is evaluated at the
+        # parameters it left behind.  (State that leaks from one call into the next - a per-call weight stored on the object, a
+        # cached Jacobian - is invisible to a single step on a fresh optimizer: seed C07e.)
+        model = Model(case)
+        prebuilt = (model,) + tuple(build_optimizer(case, model, shapes))
+        opt0, rsol0, rstr0 = prebuilt[1], prebuilt[2], prebuilt[3]
+        tg0 = targets(case, shapes)
+        tgt0 = None if not case["target"] else tuple(torch.tensor(t) for t in tg0)
+        kw0 = {}
+        if case["prestep"] == "weight":
+            kw0["weight"] = [torch.eye(m_, dtype=torch.float64) * (2.0 + ri_) + 0.25 * torch.ones(m_, m_, dtype=torch.float64) for ri_, (_, m_) in enumerate(shapes)]
+        try:
+            opt0.step(torch.zeros(1), target=tgt0, **kw0)
+        except Exception:
+            rec.discard_case("prestep_raised")
+        if step_outside_domain(case, rsol0) or any(c[2] is not None and float(np.abs(c[2]).max()) > 2.0 for c in rsol0.calls if c[2] is not None and np.size(c[2])):
+            rec.discard_case("prestep_too_large")
+        base = [p.detach().clone().numpy() if not isinstance(p, pp.LieTensor) else p.tensor().detach().clone().numpy() for p in model.ps]
+        for b in range(case["B"]):
+            ok, why = c04._inspect(dict(case, inputs=[{"kind": i["kind"], "val": base[k_][b].tolist()} for k_, i in enumerate(case["inputs"])], cls="generic", dtype="float64"))
+            if not ok:
+                rec.discard_case("after_prestep:" + why)
+        del rsol0.calls[:]
+        if rstr0 is not None:
+            del rstr0.before[:]
+        try:
+            Jt, r0, shapes = numeric_J(case, base)
+        except Exception as e:
+            rec.discard_case("forward_failed_after_prestep:%s" % type(e).__name__)
+        if not (np.all(np.isfinite(Jt)) and np.all(np.isfinite(r0))) or np.abs(r0).max() > 1e3:
+            rec.discard_case("forward_nonfinite")
+        rec.label("prestep:" + case["prestep"])
     # ---- reference corrected residual / Jacobian / weight ---------------------------------
     kname, kd = case["kernel"], case["kdelta"]
     rows, Jc, rc, Wblocks = 0, [], [], []
@@ -449,8 +486,11 @@ def check_model(case, rec, tol=1e-6):
         if sv0.size and (sv0[0] < 10 * floor or sv0[-1] < max(1e-7 * sv0[0], floor)):
             rec.discard_case("gn_rank_deficient_system")
     # ---- run the optimizer ------------------------------------------------------------------
-    model = Model(case)
-    opt, rsol, rstr, wlist, _ = build_optimizer(case, model, shapes)
+    if prebuilt is not None:
+        model, opt, rsol, rstr, wlist, _ = prebuilt
+    else:
+        model = Model(case)
+        opt, rsol, rstr, wlist, _ = build_optimizer(case, model, shapes)
     tg = targets(case, shapes)
     tgt = None if not case["target"] else tuple(torch.tensor(t) for t in tg)
     kw = {"weight": wlist} if case["weight_at_step"] else {}
